@@ -88,7 +88,7 @@ def build(tier):
         st.locals.update(dict(agent=agent, num_envs=num_envs, evo_steps=evo, total_steps=z3.Int("total_steps"), __env_step__=Fn(model=tick, name="env.step")))
     P.specns["last"] = lambda s: s.arr[z3.simplify(s.len - 1)]
     inner = dict(invariant=["steps == env_steps", "total_steps == old(total_steps) + env_steps", "len(agent.steps) == old(len(agent.steps))",
-                            "last(agent.steps) == old(last(agent.steps))"], havoc_names=["env_steps"])
+                            "last(agent.steps) == old(last(agent.steps))", "env_steps >= 0", "implies(_k >= 1, env_steps >= 1)"], havoc_names=["env_steps"])
     for mod, fn, nloops in (("train_off_policy", "train_off_policy", 1), ("train_on_policy", "train_on_policy", 2),
                             ("train_multi_agent_off_policy", "train_multi_agent_off_policy", 1),
                             ("train_multi_agent_on_policy", "train_multi_agent_on_policy", 2)):
@@ -97,15 +97,16 @@ def build(tier):
         owner, m, f = front.find_function(qual)
         loops = sorted([x for x in ast.walk(f) if isinstance(x, (ast.For, ast.While))], key=lambda x: (x.lineno, x.col_offset))
         ords = [i for i, x in enumerate(loops) if isinstance(x, ast.For) and
-                (ast.unparse(x.iter).startswith("range(evo_steps // num_envs)") or ast.unparse(x.iter).startswith("range(-(evo_steps // -agent.learn_step))")
+                ("evo_steps // num_envs" in ast.unparse(x.iter) or ast.unparse(x.iter).startswith("range(-(evo_steps // -agent.learn_step))")
                  or ast.unparse(x.iter).startswith("range(-(agent.learn_step // -num_envs))"))]
         P.contract(qual, variant="step-counter", setup=setup, region=agent_loop_slice,
                    params={p.arg: "opaque" for p in f.args.args + f.args.kwonlyargs if p.arg not in ("evo_steps",)},
                    requires=[], frame_fields=False,
                    loops={o: inner for o in ords},
                    ensures=["last(agent.steps) == old(last(agent.steps)) + env_steps",     # counter == environment steps actually taken
-                            "len(agent.steps) == old(len(agent.steps))", "total_steps == old(total_steps) + env_steps"],
-                   replay="c20:counters")
+                            "len(agent.steps) == old(len(agent.steps))", "total_steps == old(total_steps) + env_steps",
+                            "env_steps >= 1"],          # progress: every generation advances the budget the outer `while` waits for
+                   replay={"adapter": "demos:run", "payload": {"name": "C20_demo_9"}} if "off_policy" in mod else "c20:counters")
 
     # train_bandits: one environment, one step per iteration
     def bandit_setup(ex, st, fr):
